@@ -349,6 +349,29 @@ Definition zcall (n : N) (z : zstream) : sprog (N * bool * zstream) :=
   let go (_ : unit) := if n - i =? 0 then SRet (OK, false, z1) else zloop 70000 (n - i) (zs z) in
   if 0 <? i then SDo (SWrite (win_bytes (N.to_nat i) (win (zs z)) (zo z) [])) go else go tt.
 
+(* mszipd_decompress_kwaj: blocks of (16-bit length, "CK", deflate data) until a zero length *)
+Fixpoint zkwaj_loop (fuel : nat) (st : zst) : sprog N :=
+  match fuel with O => SRet 99 | S f =>
+    sbind ((s <- get ;; _ <- remove (N.land (bl s) 7) ;; lo <- read_bits 8 ;; hi <- read_bits 8 ;; ret (N.lor lo (N.shiftl hi 8))) st) (fun r =>
+      match r with
+      | inl (IMsp e) => SRet e | inl (IErr _) => SRet ERR_DECRUNCH
+      | inr (blen, st1) =>
+        if blen =? 0 then SRet OK else
+        sbind ((c <- read_bits 8 ;; if negb (c =? 67) then fail (IMsp 8) else
+                k <- read_bits 8 ;; if negb (k =? 75) then fail (IMsp 8) else
+                s1 <- get ;; _ <- put (upd_win s1 (win s1) 0 0) ;; inflate 100000) st1) (fun r2 =>
+          match r2 with
+          | inl (IMsp e) => SRet e | inl (IErr _) => SRet ERR_DECRUNCH
+          | inr (_, s2) => SDo (SWrite (win_bytes (N.to_nat (bout s2)) (win s2) 0 [])) (fun _ => zkwaj_loop f s2)
+          end)
+      end)
+  end.
+Definition mszip_kwaj (inp : list N) : N * list N :=
+  match ideal EofPad2 0 (zkwaj_loop 70000 init) {| irest := inp ++ pad EofPad2; iout := [] |} with
+  | (SVal st, s) => (st, rev_append (iout s) [])
+  | (SStop e, s) => (e, rev_append (iout s) [])
+  end.
+
 (* whole-stream ideal run for the driver *)
 Definition mszip_ideal (inp : list N) (out_bytes : N) : N * list N :=
   match ideal EofPad2 0 (mszip_run out_bytes) {| irest := inp ++ pad EofPad2; iout := [] |} with
